@@ -1007,15 +1007,13 @@ def analyse(out, res, unit):
         if kind == 'rlimit':
             undecided.append('%s: %s' % (f['id'] if f else '?', msg))
             continue
+        weak_callees = []
         if f is not None and not f.get('default'):
             # a function that calls one which only carries its type's default contract (a method added by a change: nothing states what it
             # keeps) loses every fact across that call; what then fails in the CALLER is undecided, not a violation - the new method's own
             # default obligations (it must not drop queued bytes, change the throttling state, ...) are still checked in its own body
             body_txt = '\n'.join(out.lines[k] for k in range(f['start'] - 1, min(f['end'], len(out.lines))) if out.origin[k].get('kind') == 'src')
-            weak = [d['id'] for d in out.fns if d.get('default') and d is not f and re.search(r'\b%s\s*\(' % re.escape(d['id'].split('::')[-1]), body_txt)]
-            if weak:
-                undecided.append('@props=%s@ %s calls %s, which carries only the default contract of its type: %s' % (','.join(f['props']), f['id'], ', '.join(weak), msg))
-                continue
+            weak_callees = [d_['id'] for d_ in out.fns if d_.get('default') and d_ is not f and re.search(r'\b%s\s*\(' % re.escape(d_['id'].split('::')[-1]), body_txt)]
         # precondition failure: primary span = call site, secondary = the callee's requires clause
         # postcondition failure: primary span = ensures clause, secondary = exit
         label = None
@@ -1081,6 +1079,10 @@ def analyse(out, res, unit):
                             break
             txt = rx.norm_ws(site[2])[:100] if site else rx.norm_ws(out.lines[pl - 1])[:100]
             key = '%s@%s' % (kind, txt)
+        if weak_callees:
+            # (reported for every property the failing clause or the function bears on, so that each of them runs its scenario library)
+            undecided.append('@props=%s@ %s calls %s, which carries only the default contract of its type: %s %s' % (','.join(props), f['id'], ', '.join(weak_callees), key, msg))
+            continue
         fails.append({'unit': unit.name, 'fn': f['id'] if f else None, 'key': key, 'props': props, 'kind': kind,
                       'message': msg, 'label': label,
                       'spans': [{'line': s['line_start'], 'text': out.lines[s['line_start'] - 1].strip() if s['line_start'] - 1 < len(out.lines) else '',
@@ -1382,7 +1384,7 @@ def check(prop, tier):
             print('UNDECIDED property=%s %s' % (prop, u))
     if wit is not None:
         extra = list(extra) + [{'name': 'witness-scenarios (bounded, not counted as proved)', 'files': wit.get('files'), 'ran': wit.get('ran'), 'passed': wit.get('passed'),
-                                'failed': [x['test'] for x in wit.get('failed', [])], 'inconclusive': wit.get('inconclusive'), 'backends': ['cargo-test (bounded)']}]
+                                'failed': [x['test'] for x in wit.get('failed', [])], 'inconclusive': wit.get('inconclusive'), 'not_built_against_this_tree': wit.get('not_built'), 'backends': ['cargo-test (bounded)']}]
     write_evidence(prop, tier, seed, results, extra, obligations, n_ob, n_dis, violations, knowns, undecided, time.time() - t0)
     if rc == 0:
         print('OK property=%s obligations=%d discharged=%d units=%s wall=%.1fs' % (prop, n_ob, n_dis, ','.join(units), time.time() - t0))
